@@ -14,7 +14,8 @@ META = {
     "level": "model_checking",
     "level_text": "TLC explores every sequence of <=3 (quick) / <=4 (thorough) references to one global and <=2 / <=3 references to "
                   "two globals over the scopes {top|layout, macro, closure, imported macro, rendered file, extending-file macro} x "
-                  "{read, write} x {declaration hoisted or not} x {value, pointer} x {plain, extends}, checks that the "
+                  "{read, write} x {declaration hoisted or not} x {value, pointer} x {plain, extends} (the longest length without the "
+                  "silent same-name package variable and without hoisted closures), checks that the "
                   "transcribed mechanism with the proposed fixes is a register, that the mechanism as written leaves the "
                   "register semantics only when the first reference of the body is inside a function literal or when a "
                   "value is written in one compiled function and read in another, and exports every sequence; each is "
@@ -27,23 +28,29 @@ META = {
 
 FAMS = ["globals"]
 
-# Defects demonstrated on the unchanged tree (see the report / replays); the integrator fixes /repo or moves
-# these into known-findings.json.  Both signatures name the root-cause circumstance computed by Trace_Globals.Sig:
+# Defects demonstrated on the unchanged tree (minimal inputs, code locations and proposed fixes are in the family
+# report); the integrator fixes /repo or moves these into known-findings.json.  The signatures are computed by
+# Trace_Globals.Sig and name the root-cause circumstance:
 #   firstref = scope of the first reference to the variable that the compiler meets in the body file
 #   cross    = the latest write to the variable is in another compiled function than the failing read
+#   got      = what was seen instead of the register's value (zero: never bound; supplied / stale-write: a write was lost)
+D1 = "value passed to Run ignored when the first reference to the global in the body file is inside a %s " \
+     "(checker_expressions.go records the upvar with NativePkg: ident.Name, so initGlobalVariables never binds the " \
+     "body's Global: its reads see the zero value and its writes are lost)"
+D2 = "non-pointer value supplied to Run: every package-level function (body, imported macro, rendered file, " \
+     "extending-file macro) gets its own copy (predefVarIndex appends one Global per function), so a write in one " \
+     "is not seen in another"
 PROPOSED_KNOWN = [
-    {"kind": "known", "signature": {"fam": "globals", "firstref": "macro"},
-     "what": "value passed to Run ignored when the first reference to the global in the body file is inside a macro "
-             "(checker_expressions.go records the upvar with NativePkg: ident.Name, so initGlobalVariables never binds it)"},
-    {"kind": "known", "signature": {"fam": "globals", "firstref": "closure"},
-     "what": "value passed to Run ignored when the first reference to the global in the body file is inside a function literal "
-             "(checker_expressions.go records the upvar with NativePkg: ident.Name, so initGlobalVariables never binds it)"},
-    {"kind": "known", "signature": {"fam": "globals", "clause": "read", "sup": "value", "cross": True, "got": "supplied"},
-     "what": "non-pointer value supplied to Run: every package-level function (imported macro, rendered file, extending-file macro, body) "
-             "gets its own copy (predefVarIndex appends one Global per function), so a write in one is not seen in another"},
-    {"kind": "known", "signature": {"fam": "globals", "clause": "read", "sup": "value", "cross": True, "got": "stale-write"},
-     "what": "non-pointer value supplied to Run: every package-level function (imported macro, rendered file, extending-file macro, body) "
-             "gets its own copy (predefVarIndex appends one Global per function), so a write in one is not seen in another"},
+    {"kind": "known", "signature": dict({"fam": "globals", "firstref": first}, **shape), "what": (D1 % word) + " - " + how}
+    for first, word in (("macro", "macro"), ("closure", "function literal"))
+    for shape, how in (({"clause": "read", "got": "zero"}, "a read in the body file sees 0"),
+                       ({"clause": "read", "got": "supplied", "cross": True}, "a write in the body file is not seen from another file"),
+                       ({"clause": "read", "got": "stale-write", "cross": True}, "a write in the body file is not seen from another file (older write seen)"),
+                       ({"clause": "caller", "got": "supplied", "sup": "pointer"}, "a write in the body file does not reach the caller's variable"),
+                       ({"clause": "caller", "got": "stale-write", "sup": "pointer"}, "a write in the body file does not reach the caller's variable (older write kept)"))
+] + [
+    {"kind": "known", "signature": {"fam": "globals", "clause": "read", "sup": "value", "cross": True, "got": got}, "what": D2 + how}
+    for got, how in (("supplied", " - the supplied value is read"), ("stale-write", " - an older write is read"))
 ]
 
 CORE = ["FixedMeetsRef", "AsWrittenDeviatesOnlyIf", "UsedVarsReported"]
@@ -134,8 +141,9 @@ def model_check(ctx, pool):
     # diagnostics, in the background: the mechanism AS WRITTEN (and with only the package fix) against the
     # register semantics.  A counterexample is expected while the defects are in the tree; it is the minimal
     # witness, not a verdict.
-    fut = {"AsWrittenMeetsRef": pool.submit(diag_run, ctx, "mc_diag_a", consts, "AsWrittenMeetsRef"),
-           "OnlyPkgFixedMeetsRef": pool.submit(diag_run, ctx, "mc_diag_b", consts, "OnlyPkgFixedMeetsRef")}
+    fut = {"AsWrittenMeetsRef": pool.submit(diag_run, ctx, "mc_diag_a", consts, "AsWrittenMeetsRef")}
+    if not ctx.quick:
+        fut["OnlyPkgFixedMeetsRef"] = pool.submit(diag_run, ctx, "mc_diag_b", consts, "OnlyPkgFixedMeetsRef")
     fut["all_theorems"] = pool.submit(all_theorems_run, ctx)
     # the design-level theorems over the whole space + export of the space
     wd = ctx.stage("mc", FAMS)
@@ -186,28 +194,30 @@ def run(ctx, only_cases=None):
     # replay into the real code
     obs = ctx.work / "obs.ndjson"
     ctx.drive("c17", cases, obs, timeout=900)
-    allobs = rig.read_ndjson(obs)
+    rawlines = [l for l in open(obs) if l.strip()]
+    allobs = [json.loads(l) for l in rawlines]
     mark("build_driver_and_replay")
     outcomes = {}
     for o in allobs:
         outcomes[o["outcome"]] = outcomes.get(o["outcome"], 0) + 1
     nobuild = [o for o in allobs if o["outcome"] in ("builderror", "hostpanic-build")]
     ctx.cov.update(evaluations=len(allobs), traces_validated_against_impl=len(allobs) - len(nobuild), outcomes=outcomes,
-                   distinct_nontrivial=len({json.dumps(case_of(o), sort_keys=True) for o in allobs if nontrivial(o)}),
+                   distinct_nontrivial=len({(o["sup"], o["ext"], tuple((r["sc"], r["op"], r["var"], r["hoist"]) for r in o["refs"]))
+                                            for o in allobs if nontrivial(o)}),
                    rule="every reference sequence of the bounded space exported by TLC (exhaustive), each built once and run twice; "
                         "non-trivial = at least two references to a global and at least one of them outside the top level of the body file",
                    exhaustive=only_cases is None,
                    by_scope={sc: sum(1 for o in allobs if any(r["sc"] == sc for r in o["refs"]))
                              for sc in ("top", "layout", "macro", "closure", "imported", "rendered", "extending", "pkgvar")})
     # judge: shards in parallel TLC processes
-    nshard = max(1, min(rig.NCPU - 4, (len(allobs) + 3999) // 4000))
+    nshard = max(1, min(rig.NCPU - 4, len(allobs) // 5000))
     size = (len(allobs) + nshard - 1) // nshard if allobs else 1
     drift_every = ctx.pick(4, 8) if only_cases is None else 1
     jobs = []
     for k in range(0, max(len(allobs), 1), size):
         part = allobs[k:k + size]
         p = ctx.work / f"obs_{k // size}.ndjson"
-        rig.write_ndjson(p, part)
+        p.write_text("".join(rawlines[k:k + size]))
         jobs.append((part, pool.submit(judge, ctx, f"trace_{k // size}", p, drift_every)))
     allbad, drift = [], {"aswritten": 0, "fixed": 0, "records": 0}
     for part, f in jobs:
